@@ -1652,11 +1652,12 @@ fn run_scenario_inner(sc: &Scenario) -> Execution {
     // default spin counts (50 + 50 attempts per call) make single calls thousands of read-only
     // points long: the stuck-state threshold and the step budget grow with them
     let (sa, sy) = sc.q.spins();
+    // (with the crate's defaults of 50 + 50: 60 000 read-only points, 400 000 steps)
     let long_spins = sa + sy >= 50;
     let cfg = ExecCfg {
         schedule: sc.sched.clone(),
-        livelock: if long_spins { 60_000 } else { 4_000 },
-        max_steps: if long_spins { sc.opts.max_steps.max(400_000) } else { sc.opts.max_steps },
+        livelock: if long_spins { 600 * (sa + sy) } else { 4_000 },
+        max_steps: if long_spins { sc.opts.max_steps.max(4_000 * (sa + sy)) } else { sc.opts.max_steps },
         weak_cas_fail: sc.opts.weak_cas,
         quarantine: sc.opts.quarantine,
         // only where C18 is stated: plain handles on a busy or yielding queue
